@@ -8,7 +8,9 @@ Oracles (no model): (1) the build repeated immediately executes nothing (except 
                (3) a fingerprint-only edit of t (outputs reproduce) executes exactly t (early cut-off);
                (4) the CLI summary `N targets completed (M cache hits)` agrees with the trace.
 """
+import os
 from checks import _hist as H
+from checks import _hist2 as H2
 
 PROPERTY = "C02"
 LEVEL = "proof"
@@ -57,6 +59,11 @@ FAMILIES_QUICK = [("edits", 6, {}), ("tamper", 6, {}), ("dirs", 6, {}), ("cutoff
                   ("wipe", 3, {}), ("wipe", 3, {"minimal": True})]
 FAMILIES_THOROUGH = [(f, n * 15, kw) for f, n, kw in FAMILIES_QUICK]
 
+# round-c families (generators in _hist2.py): (generator, histories in the quick tier, keyword arguments)
+FAMILIES2_QUICK = [("sametext", 4, {}), ("sametext", 1, {"minimal": True}), ("samestamp", 4, {}), ("samestamp", 1, {"minimal": True}),
+                   ("swapdep", 3, {}), ("swapdep", 1, {"minimal": True}), ("swapraw", 1, {}), ("swapraw", 1, {"minimal": True})]
+GEN2 = {"sametext": H2.gen_sametext, "samestamp": H2.gen_samestamp, "swapdep": H2.gen_swapdep, "swapraw": H2.gen_swapraw}
+
 SIG_GLOBOUT = "noop-rebuild-executes:input-glob-matches-dependency-output"
 
 
@@ -64,6 +71,8 @@ def run(ctx):
     quick = ctx.tier == "quick"
     fams = FAMILIES_QUICK if quick else FAMILIES_THOROUGH
     hists = []
+    if os.environ.get("VERIF_DEV_ONLY_NEW"):
+        fams = []       # development only: run just the round-c families
     for fam, n, kw in fams:
         for _ in range(n):
             h = H.gen_history(ctx.rng, fam, full=True, **kw)
@@ -74,11 +83,18 @@ def run(ctx):
             hists.append(h)
     for _ in range(2 if quick else 10):
         hists.append(H.gen_globout(ctx.rng))
+    for fam, n, kw in FAMILIES2_QUICK:
+        for _ in range(n if quick else n * 15):
+            hists.append(H2.add_noop(GEN2[fam](ctx.rng, **kw)))
     ctx.coverage["rule"] = ("layered DAGs of 2-6 targets; every build selects //...; histories of edits / tampering with output paths "
                             "(delete, modify, delete directory output) / fingerprint-only edits, each followed by a build, the last build "
                             "repeated; families: " + ", ".join("%s%s x%d" % (f, "(minimal)" if kw.get("minimal") else "", n) for f, n, kw in fams) +
                             " + glob-matches-dependency-output; taintedit = taint + edit of the tainted target + no-op rebuild, relocate = the workspace moved to "
-                            "another absolute path with its cache directory renamed along, dirs = directory outputs with a symlink tampered in place; non-trivial = distinct history with >=2 builds, one executing and one with a hit")
+                            "another absolute path with its cache directory renamed along, dirs = directory outputs with a symlink tampered in place; round-c families: "
+                            + ", ".join("%s%s x%d" % (f, "(minimal)" if kw.get("minimal") else "", n) for f, n, kw in FAMILIES2_QUICK) +
+                            " (sametext = output checks with identical text in different packages / with different environment_variables, the condition of some "
+                            "destroyed; samestamp = every file carries the same mtime after every edit, most edits keep the file length; swapdep/swapraw = two or three "
+                            "outputs of one target exchange their contents, with dependants); non-trivial = distinct history with >=2 builds, one executing and one with a hit")
     recs = H.run_both(ctx, hists, "c02")
     if recs is None:
         return
@@ -89,9 +105,21 @@ def run(ctx):
     ctx.coverage["traces_validated_against_impl"] = sum(1 for r in recs if r["model"] is not None)
     for r in recs[:2] + recs[-1:]:
         ctx.sample(H.sample_of(r))
-    cnt = {"noop_checked": 0, "subset_checked": 0, "cutoff_checked": 0, "summary_checked": 0, "oracle_failures": 0}
+    cnt = {"noop_checked": 0, "subset_checked": 0, "cutoff_checked": 0, "summary_checked": 0, "oracle_failures": 0,
+           "unbuilt_state_histories": 0, "failing_prechecks": 0}
     for r in recs:
         h = r["hist"]
+        # a target that a successful build did not execute was executed before in exactly its current state (own definition,
+        # input contents, bytes of the declared outputs of its direct dependencies): "restored only if the dependency reproduced
+        # identical outputs", "an edit re-executes the edited targets and their dependants"
+        cnt["unbuilt_state_histories"] += 1
+        for f in H2.unbuilt_state_hits(h, r["real"])[:1]:
+            cnt["oracle_failures"] += 1
+            small = H.truncate(h, f["build"] + 1)
+            ctx.violation("a target was served from the cache in a state in which it was never executed: " + f["why"],
+                          {"kind": "oracle", "oracle": "not executed => executed earlier in exactly this state (definition, input contents, dependency outputs)",
+                           "history": small, "described": H.describe(small), "build": f["build"], "target": f["target"], "why": f["why"]},
+                          signature="restored-in-a-state-never-built")
         seen = {}           # label -> set of (own state, dependency labels) the target has been built in
         for b in H.walk(h, r["real"]):
             o, ws, prev = b["obs"], b["ws"], b["prev"]
@@ -138,13 +166,24 @@ def run(ctx):
             tch = set()
             for wa, wb, _, _ in real_edits:
                 tch |= H.touched(wa, wb)
-            allowed = H.descendants(ws, tch) | tainted | nocache
+            failing = H2.failing_prechecks(ws, o["pre"])
+            allowed = H.descendants(ws, tch) | tainted | nocache | failing
+            # a failing output check forces execution (documented rule; the checks of the generated targets look at files of their own)
+            if o["ok"]:
+                for l in sorted(failing & sel):
+                    cnt["failing_prechecks"] += 1
+                    if l not in ex:
+                        cnt["oracle_failures"] += 1
+                        ctx.violation("an output check of a target failed right before the build but the target was not executed",
+                                      {"kind": "oracle", "oracle": "executed set = predicted set (failing output check => executed)",
+                                       "history": H.truncate(h, b["n"] + 1), "described": H.describe(H.truncate(h, b["n"] + 1)), "build": b["n"],
+                                       "target": l, "executed": sorted(ex)}, signature="failing-check-not-executed")
             # a no-cache target's dependants are not invalidated (outputs reproduce): only the target itself
             cnt["subset_checked"] += 1
             extra = ex - allowed
             if extra:
                 cnt["oracle_failures"] += 1
-                noop = not real_edits and not tainted
+                noop = not real_edits and not tainted and not failing
                 sig = "executes-uninvalidated-target"
                 if "globout" in h.get("tags", []):
                     sig = SIG_GLOBOUT
@@ -154,7 +193,7 @@ def run(ctx):
                               {"kind": "oracle", "oracle": "re-execution subset / no-op rebuild", "history": H.truncate(h, b["n"] + 1),
                                "described": H.describe(H.truncate(h, b["n"] + 1)), "build": b["n"], "executed": sorted(ex),
                                "allowed": sorted(allowed), "unexpected": sorted(extra)}, signature=sig)
-            if not real_edits and not tainted:
+            if not real_edits and not tainted and not failing:
                 cnt["noop_checked"] += 1
             # (3) early cut-off: only fingerprints changed since the previous build
             if real_edits and all(w.startswith("fingerprint of ") for _, _, w, _ in real_edits) and not tainted:
@@ -177,4 +216,6 @@ def run(ctx):
 
 
 def replay(ctx, rep):
+    if rep.get("signature") in ("restored-in-a-state-never-built", "failing-check-not-executed"):
+        return H2.replay_oracles(ctx, rep)
     return H.replay_history(ctx, rep)
